@@ -85,7 +85,13 @@ class PageFeatureProcessor:
         if headers is not None and not isinstance(headers, (list, tuple)):
             headers = [headers]
         # ``[None]`` is the documented spelling of "no header for this section"
-        has_column_headers = bool(headers) and any(h is not None for h in headers)
+        # A header is rendered when it has explicit text, or when its text is
+        # generated from the column names (``as_colheader=True``).
+        auto_header = bool(getattr(document.rtf_body, "as_colheader", True))
+        has_column_headers = bool(headers) and any(
+            h is not None and (getattr(h, "text", None) is not None or auto_header)
+            for h in headers
+        )
 
         # If first page, NO headers, apply PAGE border_first to top of body
         if (
